@@ -38,6 +38,13 @@ class Journal(object):
     def onOneSecondTimer(self):
         pass
 
+    def setTermAndVote(self, term, votedForNodeId):
+        """Store current term and vote durably (before they are acted upon). No-op for journals without storage."""
+        pass
+
+    def getTermAndVote(self):
+        return 0, None
+
 
 class MemoryJournal(Journal):
 
@@ -253,6 +260,15 @@ class FileJournal(Journal):
         if not self.__metaSaved:
             self.__metaStorer.storeMeta(self.__meta)
             self.__metaSaved = True
+
+    def setTermAndVote(self, term, votedForNodeId):
+        self.__meta['currentTerm'] = term
+        self.__meta['votedForNodeId'] = votedForNodeId
+        self.__metaStorer.storeMeta(self.__meta)
+        self.__metaSaved = True
+
+    def getTermAndVote(self):
+        return self.__meta.get('currentTerm', 0), self.__meta.get('votedForNodeId', None)
 
 
 def createJournal(journalFile = None):
